@@ -29,6 +29,21 @@ CHECKS = {
                   "recorded traces validated by TLC (trace validation)",
         ref="DESIGN.md section 4 C01, section 3.1",
     ),
+    "C02": dict(
+        text="StudyLoop.tla: state machine of one optimize() call (Ask/Run/Tell/Callback per worker, stop flag, catch, "
+             "callback log, escaping exception) over abstract outcome kinds (22 return kinds x 4 raise kinds x stop x "
+             "report), with NoRunningAtReturn, CompleteIffFeasible, ValuesAreTheFloats, FailHasNoValues, "
+             "UncaughtPropagatesAfterFail, CallbacksExactlyOnce, ExactlyNTrials and TellNeverAltersFinished model-checked "
+             "for n_jobs 1 and 2. About 2800 real runs per check (every single-trial scenario, TLC -simulate and random "
+             "multi-trial scenarios, n_jobs=2, the tell argument table on trials in every state; in-memory, SQLite, "
+             "journal) are recorded and validated by TLC against the spec.",
+        note="Trusted: TLC, the table mapping abstract outcome kinds to concrete Python values, the reading of "
+             "'float-convertible' as 'float(v) returns' and of a Sequence as the per-objective list. The documented tell "
+             "argument table is matched at algorithm level only (drift, not violation).",
+        technique="TLA+ state-machine spec model-checked with TLC; scripted objectives run through the real "
+                  "optimize/ask/tell; recorded runs validated by TLC (trace validation)",
+        ref="DESIGN.md section 4 C02, section 3.7",
+    ),
     "C05": dict(
         text="Journal file: JournalFile.tla models append_logs/read_logs and both lock classes one system call per "
              "action, with Crash enabled at every point of an append and the grace-period takeover; TLC checks "
@@ -44,6 +59,20 @@ CHECKS = {
         technique="TLA+ syscall-level spec model-checked with TLC; TLC crash behaviours replayed into the real code over "
                   "a syscall shim; recorded executions validated by TLC (trace validation)",
         ref="DESIGN.md section 4 C05, section 3.3",
+    ),
+    "C06": dict(
+        text="JournalReplay.tla defines the journal state as Fold(log prefix) over the Storage contract's operators and "
+             "models apply_logs (cursor advanced per record, issuer-only raise aborting the batch), snapshots and re-opens; "
+             "TLC checks StateIsFold, Converge, IssuerOnlyErrors, CursorMonotone exhaustively for 2 workers and all "
+             "rejected kinds, and that a wrong cursor rule violates StateIsFold. Real histories: 2-3 JournalStorage workers "
+             "on one JSON-serialising journal with snapshots (interval 2), raw replay objects driven with arbitrary batch "
+             "splits under a worker's identity, snapshot restores and fresh replays; after every step the object's full "
+             "projection must equal Project(Fold(first k records)), errors only at the issuer with the contract's class.",
+        note="Trusted: TLC, the projection shared with C01, the list backend standing for file/Redis (those are covered by "
+             "C01/C05/C07). Append+sync of one call is atomic here; fork-shared worker ids are not modelled.",
+        technique="TLA+ fold/refinement spec model-checked with TLC; multi-worker replay histories of the real code "
+                  "validated by TLC (trace validation)",
+        ref="DESIGN.md section 4 C06, section 3.4",
     ),
     "C07": dict(
         text="Same specification pair without crashes: every interleaving of 2 appenders and 1-2 readers at system-call "
@@ -85,6 +114,32 @@ CHECKS = {
              "arithmetic on small integers. Degenerate 0*inf volumes admit both conventions (D12).",
         technique="TLA+ oracle (Pareto.tla) model-checked with TLC; real-kernel answers validated as traces by TLC",
         ref="DESIGN.md section 4 C15, section 3.8",
+    ),
+    "C17": dict(
+        text="SearchSpace.tla: trials created/claimed/suggested/finished in any order with Calculate as observation point; "
+             "property level Scratch(trials, include_pruned), NeverGrows and the group-partition properties; algorithm level "
+             "the cursor algorithm of IntersectionSearchSpace and the group splitting, checked by TLC to refine the property "
+             "level for all histories of 3 trials x 2 names x 2 distributions (three wrong variants must fail). 2800 real "
+             "ask/suggest/tell histories per run (TLC random walks + seeded generator, enqueued trials, out-of-order "
+             "finishes) with long-lived calculators; every Calculate result validated by TLC.",
+        note="Trusted: TLC, the projection of distributions to tokens. RUNNING-created-while-WAITING-exists is reproduced "
+             "through the storage API. Cursor value/group order agreement is informational (drift).",
+        technique="TLA+ refinement (cursor algorithm vs from-scratch) model-checked with TLC; real calculator results "
+                  "validated by TLC (trace validation)",
+        ref="DESIGN.md section 4 C17, section 3.8",
+    ),
+    "C20": dict(
+        text="Handles.tla extends the Storage contract with handles (abstract value at read time) and the frame property "
+             "HandlesNeverChange, model-checked on a bounded instance. The real objects are held by the harness: 22 getters "
+             "(storage and Study level, with/without deepcopy, live Trial views, tell/callback results) x 25 setters, "
+             "506 getter-setter pairs on in-memory and journal, 465 on cached RDB, 100 on each other backend; after every "
+             "later write each held object is re-projected and TLC requires it to equal its value at read time, and "
+             "modifications of deep-copied results must not show in later reads.",
+        note="Trusted: TLC, the projection shared with C01. Single-threaded histories (the two-thread variant is not "
+             "built). Replies are C01's subject: a diverging reply ends the judged part of a trace.",
+        technique="TLA+ frame-property spec model-checked with TLC; held real objects re-projected after every write and "
+                  "validated by TLC (trace validation)",
+        ref="DESIGN.md section 4 C20",
     ),
 }
 
